@@ -128,6 +128,11 @@ func (c *XAConn) execWith(ctx context.Context, query string, args []driver.Named
 // BeginTx like common transaction. but it just exec XA START
 func (c *XAConn) BeginTx(ctx context.Context, opts driver.TxOptions) (driver.Tx, error) {
 	if !tm.IsGlobalTx(ctx) {
+		// a local transaction of the application's: the mode the last XA branch on this connection left in
+		// the transaction context does not apply to it (Conn.BeginTx would begin nothing on the database)
+		if c.txCtx == nil || c.txCtx.TransactionMode == types.XAMode {
+			c.txCtx = types.NewTxCtx()
+		}
 		tx, err := c.Conn.BeginTx(ctx, opts)
 		return tx, err
 	}
